@@ -2,6 +2,9 @@ module verif/harness
 
 go 1.22
 
-require github.com/vektah/gqlparser/v2 v2.0.0
+require (
+	github.com/vektah/gqlparser/v2 v2.0.0
+	gopkg.in/yaml.v3 v3.0.1
+)
 
 replace github.com/vektah/gqlparser/v2 => /repo
